@@ -550,6 +550,30 @@ func execA(c caseA) (hist []histOp, overlap bool, err error) {
 			}
 		}
 	}
+	// in a bucket with versioning every version the race left behind is a read of the key as well (by version id):
+	// the complete body of one write with that write's ETag and metadata
+	var versionTorn string
+	if c.Versioned {
+		if lr, lerr := cls[0].Call("GET", "/"+bkt, s3c.Q("versions", "", "prefix", key), nil, nil); lerr == nil && lr.OK() {
+			var lv s3c.ListVersionsResult
+			if s3c.ParseXML(lr, &lv) == nil {
+				for _, v := range lv.Versions {
+					if v.Key != key {
+						continue
+					}
+					vr, verr := cls[0].Call("GET", path, s3c.Q("versionId", v.VersionId), nil, nil)
+					if verr != nil {
+						continue
+					}
+					if vo := attribute(vr, false); vo.Torn != "" && versionTorn == "" {
+						versionTorn = fmt.Sprintf("version %s of the key, read by id after the race, returns %s", v.VersionId, vo.Torn)
+					} else if vr.Status != 200 && versionTorn == "" {
+						versionTorn = fmt.Sprintf("version %s of the key is listed after the race and reads %d %s by id", v.VersionId, vr.Status, vr.Code())
+					}
+				}
+			}
+		}
+	}
 	render := func() string {
 		var sb strings.Builder
 		for i, h := range hist {
@@ -565,6 +589,9 @@ func execA(c caseA) (hist []histOp, overlap bool, err error) {
 		if t := r.Val.(ret).out.Torn; t != "" {
 			return hist, overlap, fmt.Errorf("torn read: op%d %s returns %s (initial state w%d)%s", i, c.Ops[i].Kind, t, c.Initial, render())
 		}
+	}
+	if versionTorn != "" {
+		return hist, overlap, fmt.Errorf("torn read: %s (initial state w%d)%s", versionTorn, c.Initial, render())
 	}
 	if porcupine.CheckOperations(modelFrom(c.Initial), pops) {
 		return hist, overlap, nil
